@@ -70,6 +70,15 @@ CHECKS = {
         note="Trusted: as C01/C03; products with the symbolic factor are opaque values constrained by lemmas valid for every IEEE "
              "multiplication; np.power contract.  get_quantizers over real layers is a concrete auxiliary check.",
         ref="DESIGN.md section 3 C07"),
+    "C09": dict(
+        level="translation_validation", engine="equiv",
+        technique="graph equivalence of the traced original and rebuilt quantizer: hash-consed term identity, z3 real relaxation for witnesses, QF_BVFP miter",
+        text="Each configuration of the option lattice is rebuilt through from_config, get_quantizer(dict) and Keras serialize/deserialize "
+             "(executed concretely; success is part of the property); the original and the rebuilt object are then traced on the same "
+             "symbolic tensor and their output and scale terms are proved equal for every input (or a replayed distinguishing input is reported).",
+        note="Programs (configurations) are enumerated; inputs are universally quantified.  Stochastic paths need a K.learning_phase stub "
+             "(absent under the pinned Keras) and share symbolic random draws.",
+        ref="DESIGN.md section 3 C09"),
 }
 
 NOT_YET = "check not built yet in this revision (see DESIGN.md section 7 build order)"
